@@ -103,6 +103,39 @@ def _unread_accessor(repo: Repo, g, name: str) -> bool:
     return repo.memo[key] == 0
 
 
+def check_mutable_defaults(rep, repo: Repo, pre: str = "") -> int:
+    """MUTABLE-default: a parameter whose default is a list / dict / set display (one object for all calls) and that is
+    stored on an object, appended to or returned makes every object built with the default share - and accumulate in -
+    that one container."""
+    n = 0
+    for fi in repo.all_functions():
+        a = fi.node.args
+        pos = a.posonlyargs + a.args
+        pairs = list(zip([x.arg for x in reversed(pos)], reversed(a.defaults))) + \
+            [(x.arg, d) for x, d in zip(a.kwonlyargs, a.kw_defaults) if d is not None]
+        for name, d in pairs:
+            mutable = isinstance(d, (ast.List, ast.Dict, ast.Set)) or (
+                isinstance(d, ast.Call) and isinstance(d.func, ast.Name) and d.func.id in ("list", "dict", "set") and not d.args)
+            if not mutable:
+                continue
+            n += 1
+            escapes = None
+            for node in ast.walk(fi.node):
+                if isinstance(node, ast.Assign) and isinstance(node.value, ast.Name) and node.value.id == name and any(
+                        isinstance(t, (ast.Attribute, ast.Subscript)) for t in node.targets):
+                    escapes = node
+                if isinstance(node, ast.Return) and isinstance(node.value, ast.Name) and node.value.id == name:
+                    escapes = node
+                if isinstance(node, ast.Call) and isinstance(node.func, ast.Attribute) and isinstance(node.func.value, ast.Name) \
+                        and node.func.value.id == name and node.func.attr in ("append", "extend", "insert", "update", "add", "setdefault"):
+                    escapes = node
+            rep.fn(pre + "MUTABLE-default", fi, f"default of '{name}' ({unparse(d)}) does not escape {fi.qual}", escapes is None,
+                   f"'{unparse(escapes)[:70] if escapes is not None else ''}' keeps / fills the one default object shared by all calls: "
+                   "every object built with the default shares (and accumulates in) the same container",
+                   line=getattr(escapes, "lineno", fi.node.lineno))
+    return n
+
+
 def check_transparent_properties(rep, repo: Repo, pre: str = "") -> int:
     n = 0
     for mi in repo.modules.values():
@@ -260,18 +293,30 @@ def check_node_defaults(rep, repo: Repo, pre: str = "", fields=None) -> None:
         if isinstance(s, ast.Assign) and len(s.targets) == 1 and unparse(s.targets[0]).startswith("self."):
             found[unparse(s.targets[0])[5:]] = unparse(s.value)
     # defaults assigned in a private helper that __init__ calls unconditionally (`self._reset_forest_state()`)
-    w = Walker(repo, fi, self_class="Node", inline=lambda f: f.cls == "Node" and f.name.startswith("_")
-               and not f.name.startswith("__"))
+    from .ir import api_signature, show
+    w = Walker(repo, fi, self_class="Node", inline=lambda f: f.cls == "Node" and not f.name.startswith("__") and (
+        f.name.startswith("_") or (api_signature(f) is None and not f.decorators)))
+    terms: Dict[str, object] = {}
     for e in w.events:
         if e.kind == "store" and not e.guards and not e.loops and not e.aug \
-                and e.target[0] == "attr" and e.target[1] == ("self",) and isinstance(e.stmt, ast.Assign) \
-                and len(e.stmt.targets) == 1 and not isinstance(e.stmt.targets[0], ast.Tuple):
-            found[e.target[2]] = unparse(e.stmt.value)
+                and e.target[0] == "attr" and e.target[1] == ("self",):
+            terms[e.target[2].lstrip("_")] = e.value
+            if isinstance(e.stmt, ast.Assign) and len(e.stmt.targets) == 1 and not isinstance(e.stmt.targets[0], ast.Tuple):
+                found[e.target[2]] = unparse(e.stmt.value)
+    WANT_TERMS = {"pred": [("K", "NIL")], "status": [("K", "STANDARD")], "relevant": [("K", "IRRELEVANT")],
+                  "n_plateaus": [("const", 0)]}
     for f, want in NODE_DEFAULTS.items():
         if fields is not None and f not in fields:
             continue
-        rep.fn(pre + "NODE-default", fi, f"a fresh node has {f} = {want}", found.get(f) == want,
-               f"Node.__init__ sets {f} = {found.get(f)!r}")
+        ok = found.get(f) == want
+        if not ok and f in terms:
+            v = terms[f]
+            if f == "adjacency":
+                ok = v[0] == "alloc" and v[1] in ("list", "builtin.list") and not v[2]  # a list created by this call
+            else:
+                ok = v in WANT_TERMS.get(f, [])
+        rep.fn(pre + "NODE-default", fi, f"a fresh node has {f} = {want}", ok,
+               f"Node.__init__ sets {f} = {found.get(f) or (show(terms[f]) if f in terms else None)!r}")
     a = fi.node.args
     for p, d in zip(reversed(a.args), reversed(a.defaults)):
         if isinstance(d, (ast.List, ast.Dict, ast.Set)):
